@@ -73,6 +73,11 @@ impl Group for C10Sim {
             // refused block requests with a full header window (100 remembered headers)
             c("blkn 100|blk+ b|blk- b|blk- g|blk+ b|blk+ g"),
             c("blkn 97|blk+ b|blk+ g|blk+ b|blk+ g|blk+ b"),
+            // commitments refused by the payment-balance validation (outgoing HTLC unapproved / overpaying), every entry point
+            c("vh 0 g 9|rv 0|scp 0 9|scp 0 10|scp 0 11|scp1 0 10|vh 0 g 10|vh1 0 g 11|vh 0 g 9|rv 0"),
+            c("vh 0 g 10|vh 0 g 0|rv 0|scp 0 11|scp 0 0|cpr 0 g|scp1 0 11|shx 0 b|shx 0 g"),
+            // initial commitment: activation before validation, refused validation, then the regular flow
+            c("world fresh|act|vh 0 b 0|act|vh1 0 g 0|act|act|vh 0 g 1|rv 0"),
             // a stale counterparty commitment number with changed HTLCs is refused late
             c("scp 0 0|scp 0 1|scp -1 2|scp -1 5|cpr 0 g|scp -2 1"),
             // re-signing the funding transaction: accepted, then refused at the signing step
